@@ -105,6 +105,11 @@ def tstr(t):
     if isinstance(t, TFn): return '%s(%s%s)' % (tstr(t.ret), ','.join(tstr(a) for a in t.args), ',...' if t.va else '')
     return '?'
 ADDR_TAKEN = {}   # fn type string -> set of function names (@...)
+ADDR_TAKEN_ABI = {}  # ABI-level signature (all pointers alike) -> set of function names
+def abi_key(t):
+    if isinstance(t, TPtr): return 'p'
+    if isinstance(t, TFn): return '%s(%s%s)' % (abi_key(t.ret), ','.join(abi_key(a) for a in t.args), ',...' if t.va else '')
+    return tstr(t)
 
 def align_of(t):
     if isinstance(t, TInt): return min(16, max(1, (1 << (max(t.n,1)-1).bit_length()) // 8)) if t.n > 8 else 1
@@ -214,7 +219,10 @@ class Val:
     def __init__(s, ty, c): s.ty = ty; s.c = c   # c: C expression string
 
 def local_name(tok): return 'v_' + mangle(tok[1:])
-def global_name(tok): return 'g_' + mangle(tok[1:])
+LIBC = {'@strcmp', '@strlen', '@memcmp', '@memchr', '@strncmp', '@abort', '@bcmp'}
+def global_name(tok):
+    if tok in LIBC: return tok[1:]
+    return 'g_' + mangle(tok[1:])
 
 FUNCS = {}    # name -> (TFn, defined)
 GLOBALS = {}  # name -> type (pointee)
@@ -463,8 +471,8 @@ def main():
         if ext:
             # external data (vtables, typeinfo): give it a dummy definition
             sz = 64 if not isinstance(ty, (TStruct, TArr)) or True else size_of(ty)
-            try: sz = max(size_of(ty), 8)
-            except Exception: sz = 64
+            try: sz = max(size_of(ty), 256)
+            except Exception: sz = 256
             out_glob.append('char %s[%d];' % (cn, sz))
             continue
         out_glob.append('%s __attribute__((aligned(%d)));' % (cdecl(ty, cn), max(align_of(ty), 8) if size_of(ty) >= 8 else align_of(ty)))
@@ -476,13 +484,14 @@ def main():
     for fname, (fty, defined) in FUNCS.items():
         if fname.startswith('@llvm.'): continue
         cn = global_name(fname)
-        if cn in LIB_RENAME: continue
+        if cn in LIB_RENAME or fname in LIBC: continue
         args = ', '.join(ctype(a) for a in fty.args) or 'void'
         if fty.va: args = (args + ', ...') if fty.args else ''
         out_proto.append('%s %s(%s);' % (ctype(fty.ret), cn, args))
 
     for b in bodies:
         out_fn.extend(translate_fn(*b))
+    out_fn.extend(emit_extern_stubs())
 
     emit_struct_defs(out_types)
     print('/* generated by ll2c.py from %s */' % src)
@@ -496,6 +505,50 @@ def main():
     print('\n'.join(out_fn))
 
 LIB_RENAME = {}
+
+# environment functions the TU only declares: contract stubs (listed in evidence assumptions)
+def stub_body(name, fty):
+    n = name[1:]
+    ret = ctype(fty.ret)
+    def retv(v='0'): return '' if isinstance(fty.ret, TVoid) else 'return (%s)%s;' % (ret, v)
+    if n in ('_Znwm', '_Znam', '_ZnwmRKSt9nothrow_t', '_ZnamRKSt9nothrow_t', '_ZnwmSt11align_val_t'):
+        return 'char* p = (char*)malloc(a0); LL2C_ASSUME(p != 0); return (%s)p;' % ret
+    if n in ('_ZdlPv', '_ZdaPv', '_ZdlPvm', '_ZdaPvm', '_ZdlPvSt11align_val_t', '_ZdlPvmSt11align_val_t'):
+        return 'free((char*)a0);'
+    if n == '__cxa_guard_acquire': return 'return (%s)(*(char*)a0 == 0);' % ret
+    if n == '__cxa_guard_release': return '*(char*)a0 = 1;'
+    if n == '__cxa_guard_abort': return ''
+    if n == '__cxa_atexit': return retv()
+    if n == '__cxa_pure_virtual': return 'll2c_fail("pure virtual call");'
+    if n.startswith('_ZSt') and '__throw_' in n: return 'll2c_fail("libstdc++ %s");' % n + retv()
+    if n == '__assert_fail': return 'll2c_fail("assertion failure in library code (__assert_fail)");'
+    if n.startswith('_ZN5boost15throw_exception'): return 'll2c_fail("boost::throw_exception");'
+    if n in ('_ZNSt9exceptionD1Ev', '_ZNSt9exceptionD2Ev', '_ZNSt13runtime_errorD1Ev', '_ZNSt13runtime_errorD2Ev',
+             '_ZNSt11logic_errorD2Ev', '_ZNSt9type_infoD2Ev', '_ZNSt9bad_allocD1Ev', '_ZNSt8bad_castD2Ev', '_ZNSt8bad_castD1Ev'): return ''
+    if n in ('_ZNSt13runtime_errorC2EPKc', '_ZNSt13runtime_errorC1EPKc', '_ZNSt11logic_errorC2EPKc'): return ''
+    if n in ('_ZNKSt13runtime_error4whatEv', '_ZNKSt9exception4whatEv', '_ZNKSt11logic_error4whatEv', '_ZNKSt8bad_cast4whatEv'): return 'return (%s)"what";' % ret
+    if n in EXC_STUBS: return EXC_STUBS[n](ret, fty)
+    return None
+
+EXC_STUBS = {}
+
+def emit_extern_stubs():
+    out = []
+    for fname, (fty, defined) in FUNCS.items():
+        if defined or fname.startswith('@llvm.') or fname in LIBC or fname.startswith('@vf_'): continue
+        if fname in ('@__gxx_personality_v0',): continue
+        body = stub_body(fname, fty)
+        if body is None:
+            UNKNOWN_EXTERNS.append(fname)
+            body = 'll2c_fail("call to unmodelled external %s");' % fname[1:]
+            if not isinstance(fty.ret, TVoid):
+                body += ' { %s r_; memset(&r_, 0, sizeof r_); return r_; }' % ctype(fty.ret)
+        params = ', '.join('%s a%d' % (ctype(a), k) for k, a in enumerate(fty.args)) or 'void'
+        if fty.va: params += ', ...'
+        out.append('%s %s(%s) { %s }' % (ctype(fty.ret), global_name(fname), params, body))
+    return out
+
+UNKNOWN_EXTERNS = []
 
 NEW_TYPES = {}   # size -> set of C struct names
 def collect_new_types(lines):
@@ -538,6 +591,7 @@ def collect_addr_taken(lines):
                 continue
             fty = FUNCS[f][0]
             ADDR_TAKEN.setdefault(tstr(fty), set()).add(f)
+            ADDR_TAKEN_ABI.setdefault(abi_key(fty), set()).add(f)
             # bitcast alias: bitcast (<T1>* @f to <T2>*)
             bm = re.search(r'bitcast\s*\(\s*$', pre[:pre.rfind(' ')+1][-0:] ) if False else None
             am = re.match(r'\s+to\s+', post)
@@ -797,6 +851,8 @@ def translate_call(s, dst, decls, goto, bl):
         # constant expression callee, e.g. bitcast (...)
         cv, i = parse_value(TPtr(TInt(8)), s, i); callee = ('expr', cv.c)
     i = skipws(s, i)
+    if isinstance(callee, str) and callee.startswith('@llvm.') and any(callee[1:].startswith(p) for p in INTRINSIC_IGNORE):
+        return []
     j = match_paren(s, i)
     args = []
     for a in split_top(s[i+1:j]):
@@ -846,6 +902,8 @@ def translate_call(s, dst, decls, goto, bl):
             fv = local_name(name) if name else callee[1]
             cty = fty if fty else TFn(rty, [a.ty for a in args], False)
             cands = sorted(ADDR_TAKEN.get(tstr(cty), ()))
+            if not cands:   # e.g. virtual calls: slot type differs from the implementation's 'this' type
+                cands = sorted(ADDR_TAKEN_ABI.get(abi_key(cty), ()))
             sig = '%s(*)(%s)' % (ctype(rty), ', '.join(ctype(a.ty) for a in args) or 'void')
             res_assign = (dst + ' = ') if (dst and not isinstance(rty, TVoid)) else ''
             if dst and not isinstance(rty, TVoid): decls[dst] = ctype(rty)
